@@ -507,3 +507,61 @@ Proof.
     { destruct H as [H|[a' H]]; [rewrite H; exact (M1 H)|rewrite H; exact (M2 a' H)]. }
     split; [exact E|]. unfold up_run, up_run_fuel. rewrite E. reflexivity.
 Qed.
+
+(* ------------------------------------------------------------------ *)
+(** * The statements of Properties/C10poly.v (the intended family spelled out per encoder) *)
+
+Definition intended_of (e : enc) : af -> list nat -> Prop :=
+  match e with
+  | AuxCf | ExpCf => cfs | AuxAdm => adm | AuxCo | ExpCo | HybCo => co | StDefault => st
+  end.
+
+Lemma intended_of_basep : forall e, intended_of e = basep (enc_base e).
+Proof. intros e. destruct e; reflexivity. Qed.
+
+Theorem poly_intended_not_conflict_stmt : forall e thr range F n C S,
+  1 <= thr -> compact_af F n -> enc_clauses e thr range F = Some C ->
+  intended_of e F S ->
+  up_run C (induced e n range F S) <> UpConflict /\
+  forall k, up_run_fuel k C (induced e n range F S) <> UpConflict.
+Proof.
+  intros e thr range F n C S Ht HF HC HS. rewrite intended_of_basep in HS.
+  split; [|intros k]; exact (poly_intended_not_conflict e thr range F n C S _ Ht HF HC HS).
+Qed.
+
+Theorem poly_unintended_not_model_stmt : forall e thr range F n C S,
+  1 <= thr -> compact_af F n -> enc_clauses e thr range F = Some C ->
+  incl S (args F) ->
+  (up_run C (induced e n range F S) = UpModel -> intended_of e F S) /\
+  (~ intended_of e F S -> up_run C (induced e n range F S) <> UpModel) /\
+  (forall k, up_run_fuel k C (induced e n range F S) = UpModel -> intended_of e F S).
+Proof.
+  intros e thr range F n C S Ht HF HC Hi. rewrite intended_of_basep.
+  split; [|split].
+  - exact (poly_model_intended e thr range F n C S _ Ht HF HC Hi).
+  - exact (poly_unintended_not_model e thr range F n C S _ Ht HF HC Hi).
+  - intros k. exact (poly_model_intended e thr range F n C S k Ht HF HC Hi).
+Qed.
+
+Theorem poly_oracle_sets_stmt : forall e thr range F n C,
+  1 <= thr -> compact_af F n -> enc_clauses e thr range F = Some C ->
+  (e <> StDefault \/ g_stableb F = true ->
+     up_run C (induced e n range F (lfp F)) <> UpConflict) /\
+  (e = StDefault -> g_stableb F = false ->
+     up_run C (induced e n range F (lfp F)) <> UpModel) /\
+  (forall x b, In b (lfp F) -> att F b x ->
+     up_run C (induced e n range F (x :: lfp F)) <> UpModel) /\
+  (e = AuxCo \/ e = ExpCo \/ e = HybCo ->
+     (lfp F <> [] -> up_run C (induced e n range F []) <> UpModel) /\
+     ((exists a, In a (args F) /\ forall b, ~ att F b a) ->
+        up_run C (induced e n range F []) <> UpModel) /\
+     (lfp F = [] -> up_run C (induced e n range F []) <> UpConflict)).
+Proof.
+  intros e thr range F n C Ht HF HC.
+  destruct (poly_oracle_sets e thr range F n C (up_fuel C) Ht HF HC) as [H1 [H2 [H3 H4]]].
+  split; [|split; [|split]].
+  - intros [H|H]; apply H1; [left|right; exact H]. destruct e; try discriminate. exfalso. apply H. reflexivity.
+  - intros He. apply H2. rewrite He. reflexivity.
+  - exact H3.
+  - intros He. apply H4. destruct He as [He|[He|He]]; rewrite He; reflexivity.
+Qed.
